@@ -259,3 +259,44 @@ def douglas_local(pm):
     code = subst(bg.term, {ph("N", 0): n, ph("B", 1): j})
     out.append((site, "exact" if is_zero(code - ref) else "different", "" if is_zero(code - ref) else f"code - chain rule = {repr(code - ref)[:200]}"))
     return out
+
+
+def douglas_kronecker(pm):
+    """the merged leaf axis must enumerate (features merged so far, new feature) in this order, the order in which
+    _compute_grads un-flattens it (one axis per entry of cut_points_list_, in list order). -> (status, detail)"""
+    X.SIMPLEX["on"] = False
+    ci = pm.classes["Douglas"]
+    f = ci.methods.get("_merge_leaf")
+    if f is None:
+        raise Unsupported("_merge_leaf not found")
+    params = [a.arg for a in f.args.args]
+    a_in, b_in = input_array("a", ["N", "A"]), input_array("b", ["N", "B"])
+    I = TermInterp({params[0]: None, params[1]: a_in, params[2]: b_in}, {}, mode="model")
+    ret = None
+    for st in f.body:
+        if isinstance(st, ast.Return):
+            ret = st
+            break
+        I.stmt(st)
+    if ret is None:
+        raise Unsupported("no return")
+    v = ret.value
+    # <expr>.reshape((-1, prod)) / np.reshape(<expr>, (-1, prod))
+    inner = None
+    if isinstance(v, ast.Call) and isinstance(v.func, ast.Attribute) and v.func.attr == "reshape":
+        inner = v.func.value
+    elif isinstance(v, ast.Call) and norm_src(v.func) in ("np.reshape",) and v.args:
+        inner = v.args[0]
+    if inner is None:
+        raise Unsupported(f"the merged leaf is not flattened by a reshape: {norm_src(v)[:60]}")
+    prod = I.ev(inner)
+    if not isinstance(prod, TArr) or prod.ndim != 3:
+        raise Unsupported("the value flattened is not a 3-d product")
+    from .e8_index import mk_var
+    want = Poly.atom(mk_var("a", (ph("N", 0), ph("A", 1)))) * Poly.atom(mk_var("b", (ph("N", 0), ph("B", 2))))
+    if list(prod.shape) == ["N", "A", "B"] and prod.term == want:
+        return "exact", "leaf[n, (i, j)] = first[n, i] * second[n, j], first operand major"
+    if list(prod.shape) == ["N", "B", "A"]:
+        return "different", ("the product is laid out [N, new feature, merged features]: the flattened leaf axis enumerates the NEW feature first, while _compute_grads "
+                             "reshapes it with one axis per feature in list order - every cut point receives the gradient of another feature's marginal")
+    return "different", f"the product has axes {list(prod.shape)} and entries {prod.term!r}, not first[n,i] * second[n,j]"
